@@ -14,6 +14,8 @@ func TestVerifSim(t *testing.T) {
 		t.Skip("VERIF_FAMILY not set")
 	case "G":
 		vs.WorkerMain(t, "exec-sim", "G", runG)
+	case "I":
+		vs.WorkerMain(t, "exec-sim", "I", runI)
 	case "M":
 		vs.WorkerMain(t, "exec-sim", "M", runM)
 	case "O":
